@@ -92,6 +92,23 @@ PRESETS = [
 ]
 
 
+def _long_presets():
+    """LONG inputs (hundreds of characters, match sets with hundreds of members): whatever a cache does to large entries
+    must stay invisible.  Explicit request lists: the same request twice, other rules over the same repetition first."""
+    vis = ("rep", 0, None, ("range", 0x20, 0x7E))
+    g1 = [("r0", ("alt", [("ref", 1), ("ref", 2)], False), None),
+          ("r1", ("cat", [("ref", 2), ("lit", " #", False), ("ref", 2)]), None),
+          ("r2", vis, None)]
+    s1 = "x" * 190 + " #" + "y" * 150
+    s2 = "k" * 140 + " #" + "v" * 131 + " #" + "w" * 9
+    g2 = [("r0", ("cat", [("rep", 0, None, ("alt", [("lit", "ab", False), ("lit", "a", False), ("lit", "b", False)], False)), ("lit", "c", False)]), None)]
+    s3 = "ab" * 70 + "c" + "ab" * 3
+    reqs1 = [("parse", s1, 0), ("parse", s1, 0), ("parse_all", s1, 0), ("parse", s2, 0), ("lparse", s2, 0), ("parse", s2, 0),
+             ("parse", s1, 100), ("parse", s1, 0), ("parse", s2, 141), ("parse_all", s2, 0)]
+    reqs2 = [("parse", s3, 0), ("parse", s3, 0), ("parse", s3, 1), ("parse", s3, 0), ("parse", s3, 2), ("parse_all", s3[:141], 0), ("parse_all", s3[:141], 0)]
+    return [(g1, reqs1), (g2, reqs2)]
+
+
 def run(ctx):
     P = lib.import_repo()
     cc.proof_part(ctx)
@@ -109,8 +126,11 @@ def run(ctx):
     aborts = 0
     samples = []
     try:
-        for gi in range(n_gr + len(PRESETS)):
-            if gi < len(PRESETS):
+        longs = _long_presets()
+        for gi in range(-len(longs), n_gr + len(PRESETS)):
+            if gi < 0:
+                gr, reqs = longs[gi]
+            elif gi < len(PRESETS):
                 gr, strings = PRESETS[gi]
                 reqs = _descending(["parse", "lparse"], strings)
             else:
